@@ -59,7 +59,9 @@ TABLE = {
     "C07": ("Lean theorem T_C07: trait side - the delegation-target trait has `EntraitT` prepended to the generics, `: 'static`, "
             "receiver rewritten to / followed by `__impl`, the selector trait is `pub trait D<T> { type Target: I<T>; }`, and every "
             "Impl<T> method body is `<EntraitT::Target as I<EntraitT>>::m(self, args)` resp. the `AsRef<dyn I<EntraitT>>` form; "
-            "impl-block side - `impl<EntraitT..> Path<EntraitT, ..> for X where Impl<EntraitT>: deps` with bodies `Self::m(__impl, args)`.",
+            "impl-block side - `impl<EntraitT..> Path<EntraitT, ..> for X where Impl<EntraitT>: deps` with bodies `Self::m(__impl, args)`. "
+            "C07Sem.T_C07_sem / T_C07_view: over an abstract world of user impls (which Target an application selects, which block a type has), "
+            "where clause, selector trait and bodies agree on D and I, and every method of the Impl<T> impl reaches the block the application selected.",
             "Trait selection (`T::Target`, `dyn` coercion) itself is rustc's.",
             "Lean 4 theorem + differential correspondence", "3/C07"),
     "C08": ('Lean theorems T_C08 / classify_fn / splitBody_print: the generated trait and impl have exactly one method per body entry the splitter classifies as a function, named like it, in source order; an entry is a function iff (after its outer attributes) it has a non-empty visibility, the following tokens look like a fn header, a signature parses there and is not followed by `;`; entries are contiguous slices of the top-level token trees of the body, so nothing inside a delimited group is looked at; the trait is named as requested, has visibility visFromInside(requested) and `vis use m::Trait;` follows the module. The generator additionally knows by construction which entries are visible functions (ground truth); importability from the parent for every visibility form is compiled by rustc in the probe p_c08_mod_visibility.',
@@ -78,13 +80,16 @@ TABLE = {
             "The facade mapping (cargo feature -> macro variant) in src/lib.rs is read on every run and executed by the feature-on / feature-off probes.",
             "Lean 4 theorem + exhaustive lattice enumeration against the real macro", "3/C10"),
     "C11": ("Lean theorem T_C11: when the unimock derivation is emitted its arguments are exactly prefix=::entrait::__unimock, "
-            "api=[Name] / api=Name iff mock_api, and unmock_with=[..] with one entry per method in order: `f`, `_` or `f(params)`.",
+            "api=[Name] / api=Name iff mock_api, and unmock_with=[..] with one entry per method in order: `f`, `_` or `f(params)`. "
+            "C11Sem.T_C11_sem: under unimock's documented reading of unmock_with entries, the un-mocked call of a method is the very call the "
+            "delegating impl makes (the source function, self first iff it takes the dependency, the parameters in order).",
             "unimock's own contract (entry i pairs with method i) is read from its source, not verified.",
             "Lean 4 theorem + differential correspondence", "3/C11"),
     "C12": ("Lean theorem T_C12: without async_trait, an async source method is declared non-async returning "
             "`impl ::core::future::Future<Output = R> [+ ::core::marker::Send]` (Send iff ?Send absent, R = () if omitted) while the "
             "impl keeps `async fn .. -> R` and awaits; with async_trait the signature is unchanged and the attribute is re-applied "
-            "to trait(s) and impl.",
+            "to trait(s) and impl. C12Sem.T_C12_sem / T_C12_view: the declared return type demands Send of the future iff ?Send was not given, so "
+            "under ?Send every implementation is accepted whatever its future is, by default exactly those whose future is Send.",
             "Whether a particular future is Send is rustc's auto-trait inference.",
             "Lean 4 theorem + differential correspondence", "3/C12"),
     "C13": ("Lean theorem T_C13: fn input - the trait's visibility tokens are exactly the requested ones (none if none), independent of the fn's own; mod input - visFromInside(requested): pub(super) if none, pub / crate-rooted unchanged, a restriction relative to the attribute's place re-based one level (lemma moduleVis_eq); trait input - re-emitted trait and delegation-target trait carry the source trait's visibility. Exhaustive requested x item visibility lattice against the real macro; privacy itself is checked by rustc in 1 positive and 2 must-not-compile probes.",
@@ -120,7 +125,7 @@ TABLE = {
             "That rustc then drops the method is exercised by the probe p_c18_cfg_fns.",
             "cfg evaluation itself is rustc's (sampled by the probe).",
             "Lean 4 theorem + differential correspondence", "3/C18"),
-    "C19": ("Lean theorem T_C19: the bounds on the macro's type parameter are absolute paths or 'static; the self type is EntraitT, ::entrait::Impl<EntraitT> or the user's; what the macro requires of T in trait mode is an absolute path or one of the user's own trait names; every delegating body is one of the recognised call shapes (which name only the callee, the method's parameters, self/Self/__impl/EntraitT and ::core paths); rewritten return types are the absolute impl ::core::future::Future form (from T_C12). Name resolution in a hostile scope (user items called Impl, Send, Sync, Future, AsRef, core, std, entrait, ...) is exercised with rustc by the probe p_c19_capture.",
+    "C19": ("Lean theorem T_C19: the bounds on the macro's type parameter are absolute paths or 'static; the self type is EntraitT, ::entrait::Impl<EntraitT> or the user's; what the macro requires of T in trait mode is an absolute path or one of the user's own trait names; every delegating body is one of the recognised call shapes (which name only the callee, the method's parameters, self/Self/__impl/EntraitT and ::core paths); rewritten return types are the absolute impl ::core::future::Future form (from T_C12). C19Sem.T_C19_sem / T_C19_view: over an abstract resolution environment (bare names resolved at the invocation site, `::name` in the crate graph) every bound the macro writes on EntraitT resolves identically under any two scopes, and what is required of T in trait mode depends on the scope only through the names the user chose. Name resolution in a hostile scope (user items called Impl, Send, Sync, Future, AsRef, core, std, entrait, ...) is exercised with rustc by the probe p_c19_capture.",
             "partial: that an absolute path cannot be captured is rustc's name resolution (sampled by the probe). Reserved names: EntraitT, __impl.",
             'Lean 4 theorem (absolute-path predicates) + differential correspondence + rustc name-capture probe', "3/C19"),
     "C20": ("The model's expand is a total Lean function of (variant, attribute, item) - no other input exists on the model side. Lean theorems T_C20_set_irrelevant / T_C20_fixParams_any_order / firstFree_least: the only hash-seeded structure of the implementation, the HashSet of reserved parameter names, is used through membership only (any enumeration of the set gives the same generated parameters) and the fuel-bounded search loops of the model equal the implementation's unbounded loops. That the implementation agrees with this function in fresh processes, with 1-16 threads, shuffled invocation order and perturbed environment is checked on every run (token equality against the model and between re-runs).",
